@@ -160,11 +160,11 @@ def _schemas():
     return _CACHE["schemas"]
 
 
-def ann(desc):
-    """JSON descriptor -> annotation as a user would write it"""
+def ann(desc, strict=False):
+    """JSON descriptor -> annotation as a user would write it (strict: every nested data class read with `throw`)"""
     from typing import Dict, FrozenSet, List, Set, Tuple
     from utype import Rule
-    key = "ann:" + _jkey(desc)
+    key = ("anns:" if strict else "ann:") + _jkey(desc)
     if key in _CACHE:
         return _CACHE[key]
     if isinstance(desc, str):
@@ -172,31 +172,34 @@ def ann(desc):
     elif "c" in desc:
         r = Rule.annotate(ann(desc["c"]), constraints={k: v for k, v in desc.items() if k != "c"})
     elif "list" in desc:
-        r = List[ann(desc["list"])]
+        r = List[ann(desc["list"], strict)]
     elif "set" in desc:
-        r = Set[ann(desc["set"])]
+        r = Set[ann(desc["set"], strict)]
     elif "frozenset" in desc:
-        r = FrozenSet[ann(desc["frozenset"])]
+        r = FrozenSet[ann(desc["frozenset"], strict)]
     elif "tuple" in desc:
-        r = Tuple[ann(desc["tuple"]), ...]
+        r = Tuple[ann(desc["tuple"], strict), ...]
     elif "tuple_fixed" in desc:
-        r = Tuple[tuple(ann(a) for a in desc["tuple_fixed"])]
+        r = Tuple[tuple(ann(a, strict) for a in desc["tuple_fixed"])]
     elif "dict" in desc:
         a = desc["dict"]
-        r = Dict[ann(a[0]), ann(a[1])] if len(a) > 1 and a[1] is not None else Rule.annotate(dict, ann(a[0]))
+        r = Dict[ann(a[0], strict), ann(a[1], strict)] if len(a) > 1 and a[1] is not None else Rule.annotate(dict, ann(a[0], strict))
     elif "schema" in desc:
         r = _schemas()[desc["schema"]]
+    elif "data" in desc:
+        # a data class declared by a descriptor {"fields": [...], "opts": {...}}; it is parsed under its OWN options
+        r = _schema_class(desc["data"], strict=strict)
     else:
         raise ValueError(f"bad type descriptor {desc}")
     _CACHE[key] = r
     return r
 
 
-def rule(desc):
+def rule(desc, strict=False):
     from utype import Rule
-    key = "rule:" + _jkey(desc)
+    key = ("rules:" if strict else "rule:") + _jkey(desc)
     if key not in _CACHE:
-        _CACHE[key] = Rule.parse_annotation(annotation=ann(desc))
+        _CACHE[key] = Rule.parse_annotation(annotation=ann(desc, strict))
     return _CACHE[key]
 
 
@@ -219,8 +222,8 @@ def reads_policy(desc, which):
         return False
     if "c" in desc:
         return False
-    if "schema" in desc:
-        return which == "invalid_values"
+    if "schema" in desc or "data" in desc:
+        return False                # a nested data class is parsed under its own __options__
     kind, elems = top(desc)
     if kind in SEQ_KINDS or kind == "tuple_fixed":
         return which == "invalid_items" or any(reads_policy(e, which) for e in elems)
@@ -234,6 +237,8 @@ def _options(opts):
     kw = dict(opts)
     if "addition" in kw and isinstance(kw["addition"], (dict, str)):
         kw["addition"] = ann(kw["addition"])
+    if "force_default" in kw:
+        kw["force_default"] = dec(kw["force_default"])
     return Options(**kw)
 
 
@@ -290,6 +295,8 @@ def impl(case):
         return impl_schema(case)
     if op == "func":
         return impl_func(case)
+    if op == "sequence":
+        return impl_sequence(case)
     raise ValueError(op)
 
 
@@ -339,10 +346,10 @@ def map_excluded(pk, pv, row, has_vt):
     return (pk == "exclude" and kbad) or (pv == "exclude" and (not kbad or pk == "preserve") and vbad)
 
 
-def _schema_class(case, strict=False, drop=()):
+def _schema_class(case, strict=False, drop=(), fresh=False):
     from utype import Field, Schema
     key = ("strict:" if strict else "schema:") + _jkey([case["fields"], case.get("props", []), case["opts"], sorted(drop)])
-    if key in _CACHE:
+    if key in _CACHE and not fresh:
         return _CACHE[key]
     attrs = {"__annotations__": {}}
     for q in case.get("props", []):
@@ -357,7 +364,7 @@ def _schema_class(case, strict=False, drop=()):
         Field(required=False, **({"on_error": oe} if oe else {}))(fget)
         attrs[q["name"]] = property(fget)
     for f in case["fields"]:
-        attrs["__annotations__"][f["name"]] = ann(f["type"])
+        attrs["__annotations__"][f["name"]] = ann(f["type"], strict)
         kw = {}
         r = field_req(f)
         if f.get("has_default"):
@@ -376,9 +383,14 @@ def _schema_class(case, strict=False, drop=()):
     opts = dict(case["opts"])
     if strict:
         opts["invalid_values"] = "throw"
+        for k in ("invalid_items", "invalid_keys"):
+            if k in opts:
+                opts[k] = "throw"
     attrs["__options__"] = _options(opts)
-    _CACHE[key] = type("S", (Schema,), attrs)
-    return _CACHE[key]
+    cls = type("S", (Schema,), attrs)
+    if not fresh:
+        _CACHE[key] = cls
+    return cls
 
 
 def effective(f, inv):
@@ -392,11 +404,20 @@ def field_req(f):
 
 def is_required(f, opts):
     """the field must be given in this parse: `required=True`, or `required='w'` under Options(mode='w')"""
+    if opts.get("ignore_required") or "force_default" in opts:
+        return False                # nothing is required in this run (force_default implies ignore_required)
     r = field_req(f)
     if isinstance(r, str):
         m = opts.get("mode")
         return bool(m) and m in r
     return bool(r)
+
+
+def eff_default(f, opts):
+    """what a field that is not given receives: (has, encoded value)"""
+    if "force_default" in opts:
+        return True, opts["force_default"]
+    return bool(f.get("has_default")), f.get("default")
 
 
 def impl_schema(case):
@@ -418,22 +439,10 @@ def impl_schema(case):
     prop_tables = {q["name"]: ([[q["raw"], conv(q["type"], dec(q["raw"]), opts)]] if q["type"] is not None else None)
                    for q in case.get("props", [])}
     res["probe"] = {"tables": tables, "add_table": add_table, "prop_tables": prop_tables}
-    # metamorphic run: all-throw declaration on the data without the excluded offenders, when no offender is preserved
-    removed, preserved = set(), False
-    for k, v in data.items():
-        if k in names:
-            bad = tables[k][0][1] is None
-            pol = effective(names[k], inv)
-            if bad and pol == "exclude" and not is_required(names[k], opts):
-                removed.add(k)
-            if bad and pol == "preserve":
-                preserved = True
-        elif typed:
-            bad = conv(add, v, opts) is None
-            if bad and inv == "exclude":
-                removed.add(k)
-            if bad and inv == "preserve":
-                preserved = True
+    # metamorphic run, recursively: the all-throw declaration (every nested class and list read with `throw`) on the
+    # data without the offenders that the `exclude` policies remove at every level; skipped when an offender is
+    # preserved somewhere or a nested value cannot be cleaned structurally
+    cleaned, sound = clean_data(case, data)
     dropped = set()
     for q in case.get("props", []):
         t = prop_tables[q["name"]]
@@ -442,13 +451,105 @@ def impl_schema(case):
             if pol == "exclude":
                 dropped.add(q["name"])
             if pol == "preserve":
-                preserved = True
-    readers = [f["type"] for f in case["fields"]] + ([add] if typed else []) + [q["type"] for q in case.get("props", [])]
-    if not preserved and not any(reads_policy(t, "invalid_values") for t in readers):
+                sound = False
+    if any(reads_policy(q["type"], w) for q in case.get("props", []) for w in ("invalid_items", "invalid_keys", "invalid_values")):
+        sound = False
+    if sound:
         S2 = _schema_class(case, strict=True, drop=dropped)
-        kept = {k: v for k, v in data.items() if k not in removed}
-        res["strict"] = outcome(lambda: S2(**kept))
+        res["strict"] = outcome(lambda: S2(**cleaned))
     return res
+
+
+def clean_value(tdesc, v, opts):
+    """(ok, cleaned, sound): does `v` convert to the declared type under `opts` (measured on the real code, in
+    isolation); `v` with the offenders removed that the exclude policies drop inside it; can the strict run be used"""
+    ok = conv(tdesc, v, opts) is not None
+    if isinstance(tdesc, dict) and "data" in tdesc:
+        if not isinstance(v, dict):
+            return ok, v, not ok            # a non-mapping input that converts cannot be cleaned structurally
+        cleaned, sound = clean_data(tdesc["data"], v)
+        return ok, cleaned, sound
+    kind, elems = top(tdesc)
+    if kind == "list":
+        pol = opts.get("invalid_items", "throw")
+        if not isinstance(v, (list, tuple)):
+            return ok, v, not ok or not reads_policy(tdesc, "invalid_items") or pol == "throw"
+        out, sound = [], True
+        for x in v:
+            okx, cx, sx = clean_value(elems[0], x, opts)
+            sound = sound and sx
+            if okx:
+                out.append(cx)
+            elif pol == "exclude":
+                continue
+            else:
+                out.append(x)
+                if pol == "preserve":
+                    sound = False
+        return ok, out, sound
+    # other containers: usable only when none of the policies they read is active
+    active = [w for w in ("invalid_items", "invalid_keys", "invalid_values") if opts.get(w, "throw") != "throw"]
+    return ok, v, not any(reads_policy(tdesc, w) for w in active)
+
+
+def clean_data(kdesc, data):
+    """the data of a class {"fields", "opts"} without what its (and its nested classes') exclude policies remove"""
+    opts = kdesc["opts"]
+    inv = opts.get("invalid_values", "throw")
+    names = {f["name"]: f for f in kdesc["fields"]}
+    add = opts.get("addition")
+    typed = isinstance(add, (dict, str))
+    out, sound = {}, True
+    for k, v in data.items():
+        if k in names:
+            f = names[k]
+            ok, cv, sv = clean_value(f["type"], v, opts)
+            sound = sound and sv
+            if ok:
+                out[k] = cv
+                continue
+            pol = effective(f, inv)
+            if pol == "exclude" and not is_required(f, opts):
+                continue
+            if pol == "preserve":
+                sound = False
+            out[k] = v
+        elif typed:
+            ok = conv(add, v, opts) is not None
+            if ok or inv == "throw":
+                out[k] = v
+            elif inv == "preserve":
+                sound = False
+                out[k] = v
+        else:
+            out[k] = v
+    return out, sound
+
+
+def step_case(case, st):
+    """a step of a sequence seen as a single data-class case under its running options"""
+    return {"op": "schema", "fields": case["fields"], "props": [], "opts": st["ropts"], "data": st["data"]}
+
+
+def impl_sequence(case):
+    """all steps on ONE class declared for this case, and each step again on a class declared afresh"""
+    from utype.utils import exceptions as exc
+    kcase = {"fields": case["fields"], "props": [], "opts": case["opts"]}
+    try:
+        cls = _schema_class(kcase, fresh=True)
+    except exc.ConfigError as e:
+        return {"config_error": str(e)[:120]}
+    steps = []
+    for st in case["steps"]:
+        data = {k: dec(v) for k, v in st["data"]}
+        ro = st["ropts"]
+        shared = outcome(lambda: cls.__from__(data, _options(ro)))
+        fresh = outcome(lambda: _schema_class(kcase, fresh=True).__from__(data, _options(ro)))
+        tables = {f["name"]: ([[enc(data[f["name"]]), conv(f["type"], data[f["name"]], ro)]] if f["name"] in data else [])
+                  for f in case["fields"]}
+        steps.append({"out": shared, "fresh": fresh, "strict": None,
+                      "probe": {"tables": tables, "add_table": [], "prop_tables": {}}})
+    return {"steps": steps}
 
 
 def _make_fn(case, opts, strict=False):
@@ -521,7 +622,7 @@ NESTED = {
     "pt": ({"schema": "Pt"}, [{"x": 1}, {"x": "2", "y": 3}], [{"y": 1}, {"x": "bad"}, "junk"]),
 }
 HASHABLE_ELEMS = ["int", "posint", "str3", "float", "tuple_int"]
-ALL_ELEMS = ["int", "int", "posint", "str3", "float", "list_int", "tuple_int", "dict_s3_int", "pt"]
+ALL_ELEMS = ["int", "int", "posint", "str3", "float", "list_int", "tuple_int", "dict_s3_int", "pt", "data", "data"]
 
 
 def elem_pool(name):
@@ -543,6 +644,9 @@ def pick_distinct(rng, pool, k, used):
 
 
 def build_elems(rng, ename, pattern, distinct=False):
+    if ename == "data":
+        k = gen_kdesc(rng)
+        return {"data": k}, [gen_instance(rng, k, bad_rate=0.0 if ch == "g" else 0.6) for ch in pattern]
     desc, good, bad = elem_pool(ename)
     used: set = set()
     ng, nb = pattern.count("g"), pattern.count("b")
@@ -650,21 +754,84 @@ def gen_field(rng, name, shape=None, on_error="?", tname=None, deps=None, req=No
     return f
 
 
-def gen_schema(rng, fields=None, presence=None, extras=None, opts=None, props=None, prop_oe="?"):
+FIELD_NAMES = ["a", "b", "c", "d"]
+
+
+def gen_kdesc(rng, names=None, inv=None, dfs=None, shapes=None, tnames=None):
+    """a data class {"fields", "props", "opts"} to be nested: it reuses the field names of its parent / siblings and is
+    parsed under its OWN options"""
+    names = names or FIELD_NAMES[: rng.choice([1, 2, 2, 3])]
+    fields = []
+    for i, nm in enumerate(names):
+        shape = shapes[i] if shapes else rng.choice(["required", "optional", "default", "default"])
+        tn = tnames[i] if tnames else rng.choice(["int", "posint", "str3"])
+        fields.append(gen_field(rng, nm, shape=shape, on_error=None if shapes else "?", tname=tn))
+    opts = {"invalid_values": inv or rng.choice(POLICIES), "invalid_items": rng.choice(POLICIES),
+            "data_first_search": rng.choice([True, False]) if dfs is None else dfs}
+    return {"fields": fields, "props": [], "opts": opts}
+
+
+def gen_instance(rng, kdesc, bad_rate=0.3, pattern=None):
+    """input for a class descriptor: {name: value}; pattern: per field 'absent' | 'good' | 'bad'"""
+    out = {}
+    for i, f in enumerate(kdesc["fields"]):
+        if pattern is not None:
+            pr = pattern[i]
+        else:
+            r = rng.random()
+            pr = "bad" if r < bad_rate else ("absent" if r < bad_rate + 0.2 else "good")
+        if pr == "absent":
+            continue
+        out[f["name"]] = field_value(rng, f, pr == "good")
+    return out
+
+
+def field_value(rng, f, good):
+    if f.get("kdesc"):
+        if good:
+            v = [gen_instance(rng, f["kdesc"], bad_rate=0.0) for _ in range(rng.choice([1, 2]))] if f.get("listof") \
+                else gen_instance(rng, f["kdesc"], bad_rate=0.0)
+        else:
+            v = [gen_instance(rng, f["kdesc"], bad_rate=0.5) for _ in range(rng.choice([1, 2, 3]))] if f.get("listof") \
+                else rng.choice([gen_instance(rng, f["kdesc"], bad_rate=0.6), "zz"])
+        return v
+    _, g, b = elem_pool(f["tname"])
+    return rng.choice(g if good else b)
+
+
+def gen_data_field(rng, name, kdesc, listof=False, shape="optional", on_error=None):
+    f = gen_field(rng, name, shape=shape, on_error=on_error, tname="int")
+    f.update(type={"list": {"data": kdesc}} if listof else {"data": kdesc}, tname="data", kdesc=kdesc, listof=listof)
+    if f["has_default"]:
+        f.update(has_default=False, default=None)
+    return f
+
+
+def gen_schema(rng, fields=None, presence=None, extras=None, opts=None, props=None, prop_oe="?", order=None):
     if fields is None:
-        names = ["a", "b", "c", "d"][: rng.choice([1, 2, 2, 3, 4])]
+        names = FIELD_NAMES[: rng.choice([1, 2, 2, 3, 4])]
         fields = []
         for nm in names:
             others = [o for o in names if o != nm]
             deps = rng.sample(others, rng.choice([1, 1, 2]) if len(others) > 1 else 1) \
                 if others and rng.random() < 0.35 else []
-            fields.append(gen_field(rng, nm, deps=deps))
+            if rng.random() < 0.22:
+                # a field of data-class type (or a list of them) whose class reuses this class's field names
+                fields.append(gen_data_field(rng, nm, gen_kdesc(rng), listof=rng.random() < 0.4,
+                                             shape=rng.choice(["optional", "required"])))
+            else:
+                fields.append(gen_field(rng, nm, deps=deps))
     if opts is None:
         opts = {"invalid_values": rng.choice(POLICIES), "invalid_items": rng.choice(POLICIES),
                 "data_first_search": rng.choice([True, False])}
         m = rng.choice([None, None, "r", "w", "w", "a"])
         if m:
             opts["mode"] = m
+        r = rng.random()
+        if r < 0.08:
+            opts["ignore_required"] = True
+        elif r < 0.12:
+            opts["force_default"] = enc(rng.choice([5, "fd"]))
         add = rng.choice(["none", "none", True, False, "int", "str3"])
         if add != "none":
             opts["addition"] = LEAVES.get(add, add) if isinstance(add, str) else add
@@ -673,17 +840,22 @@ def gen_schema(rng, fields=None, presence=None, extras=None, opts=None, props=No
     for f, pr in zip(fields, presence):
         if pr == "absent":
             continue
-        _, good, bad = elem_pool(f["tname"])
-        data.append([f["name"], enc(rng.choice(good if pr == "good" else bad))])
+        data.append([f["name"], enc(pr if isinstance(pr, (dict, list)) else field_value(rng, f, pr == "good"))])
     if extras is None:
         extras = [rng.choice(["good", "bad"]) for _ in range(rng.choice([0, 0, 1, 2]))]
     add = opts.get("addition")
     aname = "int" if add in (None, True, False) else next(k for k, v in LEAVES.items() if v == add)
     for i, ex in enumerate(extras):
         data.append([f"x{i}", enc(rng.choice(GOOD[aname] if ex == "good" else BAD[aname]))])
-    rng.shuffle(data)
+    if order is not None:
+        data.sort(key=lambda kv: order.index(kv[0]) if kv[0] in order else 99)
+    else:
+        rng.shuffle(data)
     if props is None:
         props = [rng.choice(["good", "bad", "bad"]) for _ in range(rng.choice([0, 0, 0, 1, 2]))]
+        if "force_default" in opts:
+            props = []      # fragment boundary: force_default is also applied to @property fields (a setter-less
+            #                 property then fails in set_attributes with a bare TypeError) - not this property's business
     plist = []
     for i, pr in enumerate(props):
         tn = rng.choice(["int", "posint", "str3", "int", None])
@@ -691,8 +863,38 @@ def gen_schema(rng, fields=None, presence=None, extras=None, opts=None, props=No
         plist.append({"name": f"p{i}", "type": pool[0] if tn else None,
                       "on_error": rng.choice([None, None, "throw", "exclude", "preserve"]) if prop_oe == "?" else prop_oe,
                       "raw": enc(rng.choice(pool[1] if pr == "good" else pool[2]))})
+    pat = ",".join(p if isinstance(p, str) else "v" for p in presence)
     return {"op": "schema", "fields": fields, "props": plist, "opts": opts, "data": data,
-            "pattern": ",".join(presence) + "|" + ",".join(extras) + "|" + ",".join(props)}
+            "pattern": pat + "|" + ",".join(extras) + "|" + ",".join(props)}
+
+
+RUN_KINDS = {
+    "plain": {},
+    "ignore": {"ignore_required": True},
+    "force": {"force_default": {"i": "5"}},
+    "mode_w": {"mode": "w"},
+    "mode_r": {"mode": "r"},
+}
+
+
+def gen_sequence(rng, fields=None, kinds=None, patterns=None, dfs=None, invs=None):
+    """several parses of ONE declared class with differing running options (`Cls.__from__(data, Options(...))`)"""
+    if fields is None:
+        fields = [gen_field(rng, nm, shape=rng.choice(["required", "required", "default", "optional", "modereq",
+                                                        "modereq_default"]),
+                            on_error=rng.choice([None, None, "preserve", "throw"]), tname=rng.choice(["int", "posint", "str3"]))
+                  for nm in FIELD_NAMES[: rng.choice([1, 2, 2, 3])]]
+    kinds = kinds or [rng.choice(list(RUN_KINDS)) for _ in range(rng.choice([2, 2, 3, 4]))]
+    copts = {"invalid_values": rng.choice(POLICIES), "data_first_search": rng.choice([True, False])}
+    steps = []
+    for i, kd in enumerate(kinds):
+        ro = dict(RUN_KINDS[kd])
+        ro["invalid_values"] = invs[i] if invs else rng.choice(["exclude", "exclude", "throw", "preserve"])
+        ro["data_first_search"] = rng.choice([True, False]) if dfs is None else dfs
+        pat = patterns[i] if patterns else None
+        steps.append({"kind": kd, "ropts": ro,
+                      "data": [[k, enc(v)] for k, v in gen_instance(rng, {"fields": fields}, bad_rate=0.35, pattern=pat).items()]})
+    return {"op": "sequence", "fields": fields, "opts": copts, "steps": steps, "pattern": "+".join(kinds)}
 
 
 def gen_func(rng, opts=None, pattern=None, kwpat=None, ppat=None):
@@ -732,8 +934,10 @@ def gen_case(rng):
         return gen_map(rng)
     if r < 0.80:
         return gen_schema(rng)
-    if r < 0.90:
+    if r < 0.88:
         return gen_func(rng)
+    if r < 0.94:
+        return gen_sequence(rng)
     return gen_tuple_fixed(rng)
 
 
@@ -819,6 +1023,57 @@ def exhaustive_cases(rng, tier):
                                 pres = [pa, pb] if order[0] is fa else [pb, pa]
                                 out.append(gen_schema(rng, fields=order, presence=pres, extras=[],
                                                       opts={"invalid_values": inv, "data_first_search": dfs}, props=[]))
+    # nested data classes that reuse a field name: parent {b, x: K, y: K2} and parent {b, lines: List[K]};
+    # every order of the input keys that matters, offending / valid values of the shared name at both levels,
+    # policies and strategies of parent and children independently
+    for shape in ["siblings", "list"]:
+        for order in (["b", "x", "y", "lines"], ["x", "y", "lines", "b"]):
+            for pb in ["absent", "good", "bad"]:
+                for nb in [("good", "bad"), ("bad", "good"), ("bad", "bad")]:
+                    for inv_p in ["exclude", "throw"]:
+                        for inv_k in POLICIES:
+                            for dfs_p in [True, False]:
+                                for dfs_k in [True, False]:
+                                    k1 = gen_kdesc(rng, names=["a", "b"], inv=inv_k, dfs=dfs_k,
+                                                   shapes=["optional", "default"], tnames=["str3", "posint"])
+                                    k2 = gen_kdesc(rng, names=["a", "b"], inv=inv_k, dfs=dfs_k,
+                                                   shapes=["required", "default"], tnames=["str3", "posint"])
+                                    fb = gen_field(rng, "b", shape="default", on_error=None, tname="posint")
+                                    i1 = gen_instance(rng, k1, pattern=[rng.choice(["good", "bad"]), nb[0]])
+                                    i2 = gen_instance(rng, k2, pattern=["good", nb[1]])
+                                    o = {"invalid_values": inv_p, "invalid_items": inv_p, "data_first_search": dfs_p}
+                                    if shape == "siblings":
+                                        fs = [fb, gen_data_field(rng, "x", k1), gen_data_field(rng, "y", k2)]
+                                        pres = [pb, i1, i2]
+                                    else:
+                                        fs = [fb, gen_data_field(rng, "lines", k2, listof=True)]
+                                        pres = [pb, [i2, gen_instance(rng, k2, pattern=["good", nb[0]])]]
+                                    out.append(gen_schema(rng, fields=fs, presence=pres, extras=[], opts=o, props=[],
+                                                          order=order))
+    # lists of data-class elements whose class excludes: siblings must not influence each other
+    for inv_k in POLICIES:
+        for dfs_k in [True, False]:
+            for pats in itertools.product(["good", "bad", "absent"], repeat=2 if tier == "quick" else 3):
+                for pi in (["exclude", "throw"] if tier == "quick" else POLICIES):
+                    k = gen_kdesc(rng, names=["a", "b"], inv=inv_k, dfs=dfs_k, shapes=["required", "default"],
+                                  tnames=["int", "posint"])
+                    vals = [gen_instance(rng, k, pattern=["good", p]) for p in pats]
+                    out.append({"op": "container", "type": {"list": {"data": k}},
+                                "opts": {"invalid_items": pi, "invalid_keys": "throw", "invalid_values": "throw"},
+                                "via": "rule", "value": enc(vals), "pattern": ",".join(pats)})
+    # sequences of parses of one class under differing running options (every ordered pair, and triples in thorough)
+    seq_fields = lambda: [gen_field(rng, "a", shape="required", on_error=None, tname="str3"),
+                          gen_field(rng, "b", shape="default", on_error=None, tname="posint"),
+                          gen_field(rng, "c", shape="modereq_default", on_error=None, tname="int", req="w")]
+    kinds = list(RUN_KINDS)
+    for n in ([2] if tier == "quick" else [2, 3]):
+        for ks in itertools.product(kinds, repeat=n):
+            for dfs in [True, False]:
+                for pat0 in [["bad", "good", "bad"], ["absent", "good", "good"], ["good", "bad", "absent"]]:
+                    pats = [pat0] + [rng.choice([["bad", "good", "bad"], ["absent", "bad", "good"], ["good", "good", "bad"]])
+                                     for _ in range(n - 1)]
+                    out.append(gen_sequence(rng, fields=seq_fields(), kinds=list(ks), patterns=pats, dfs=dfs,
+                                            invs=["exclude"] * n))
     # one @property x on_error x invalid_values x good/bad result
     for oe in [None, "throw", "exclude", "preserve"]:
         for inv in POLICIES:
@@ -849,6 +1104,10 @@ def exhaustive_cases(rng, tier):
 # ------------------------------------------------------------------------------------------------
 
 def model_line(case, io):
+    if case["op"] == "sequence":
+        if not isinstance(io, dict) or "steps" not in io:
+            return {"op": "skip"}
+        return {"op": "sequence", "steps": [model_line(step_case(case, st), sio) for st, sio in zip(case["steps"], io["steps"])]}
     if not isinstance(io, dict) or "probe" not in io:
         return {"op": "skip"}
     pr, opts = io["probe"], case["opts"]
@@ -869,6 +1128,8 @@ def model_line(case, io):
         addition = "ignore" if add is None else ("forbid" if add is False else ("keep" if add is True else "typed"))
         return {"op": "schema", "inv": opts.get("invalid_values", "throw"), "dfs": bool(opts.get("data_first_search")),
                 "mode": opts.get("mode"), "legacy_deps": bool(case.get("legacy_deps")),
+                "ignore_required": bool(opts.get("ignore_required")), "has_force_default": "force_default" in opts,
+                "force_default": opts.get("force_default"),
                 "fields": [{"name": f["name"], "req": field_req(f), "has_default": f["has_default"],
                             "default": f["default"], "on_error": f["on_error"], "deps": list(f.get("deps", [])),
                             "table": pr["tables"][f["name"]]}
@@ -900,6 +1161,10 @@ def model_value(case, m):
 
 def offenders(case, io):
     """how many offending elements the real converters found in this case"""
+    if case["op"] == "sequence":
+        if not isinstance(io, dict) or "steps" not in io:
+            return 0
+        return sum(offenders(step_case(case, st), sio) for st, sio in zip(case["steps"], io["steps"]))
     pr = io.get("probe") if isinstance(io, dict) else None
     if not pr:
         return 0
@@ -950,11 +1215,16 @@ class C11(Check):
             "plus exhaustive placements (quick: len<=4; thorough: every placement of <=3 offenders in len<=6 x all 27 "
             "combinations, every <=4-entry mapping shape x 27, the full one-field grid). non-trivial = the real converters "
             "found >=1 offending element in the case; distinct by (kind/type, policies, entry route, offender placement "
-            "as measured on the real code, input)")
+            "as measured on the real code, input).  Round 2: nested data classes declared from descriptors (field of "
+            "data-class type, List of them, container elements; own options per class; shared field names), recursive "
+            "metamorphic oracle, and `sequence` cases: 2-4 parses of ONE class under differing running options "
+            "(ignore_required / force_default / mode / policy / strategy), each compared with the same parse on a "
+            "freshly declared class")
     assumptions = [
         "element/key/value/field converters are abstract in the theorems; in T2 they are sampled from the real code by parsing each element in isolation under the same options",
         "fail-fast parsing (collect_errors=False), no max_depth, fields without alias/no_input/field-level mode= (mode-dependent required, defaults and dependencies are modelled): outside this fragment the model does not speak",
         "the dict/set built from the model's insertion log is constructed by CPython in the harness",
+        "nested data classes are parsed under their own __options__; force_default is not combined with @property outputs",
     ]
     budget = {"quick": 5000, "thorough": 100000}
     search_budget = {"quick": 4000, "thorough": 30000}
@@ -974,6 +1244,14 @@ class C11(Check):
 
     def compare(self, case, io, mo):
         if "config_error" in io:
+            return None
+        if case["op"] == "sequence":
+            if not isinstance(mo, dict) or "model" not in mo:
+                return f"driver: {mo}"
+            for i, (st, sio) in enumerate(zip(case["steps"], io["steps"])):
+                why = self.compare(step_case(case, st), sio, {"model": mo["model"][i], "spec": mo["spec"][i]})
+                if why:
+                    return f"step {i} ({st['kind']}): {why}"
             return None
         if not isinstance(mo, dict) or "model" not in mo:
             return f"driver: {mo}"
@@ -1020,6 +1298,15 @@ class C11(Check):
     # ---- the property, evaluated on what the implementation returned -----------------------------
     def spec(self, case, io, mo):
         if "config_error" in io:
+            return None
+        if case["op"] == "sequence":
+            for i, (st, sio) in enumerate(zip(case["steps"], io["steps"])):
+                if canon(sio["out"]) != canon(sio["fresh"]):
+                    return (f"step {i} ({st['kind']}, {st['ropts']}) on the class that made the earlier parses gave "
+                            f"{sio['out']}, the same parse on a freshly declared class gives {sio['fresh']}")
+                why = self.spec(step_case(case, st), sio, None)
+                if why:
+                    return f"step {i} ({st['kind']}): {why}"
             return None
         if "out" not in io:
             return f"no outcome: {io}"
@@ -1150,8 +1437,8 @@ class C11(Check):
                 if req:
                     if not fail:
                         fail, why_fail = True, f"required field {nm!r} absent"
-                elif f["has_default"]:
-                    log.append([nm, f["default"]])
+                elif eff_default(f, opts)[0]:
+                    log.append([nm, eff_default(f, opts)[1]])
         # a field that was accepted needs the fields it depends on to be given as well; an excluded field was
         # removed from the input: it demands nothing and is not "given" for anybody else
         for nm, d in demanded:
@@ -1293,8 +1580,11 @@ class C11(Check):
             kind, _ = top(case["type"])
             pol = o.get("invalid_items") if kind != "dict" else f"{o.get('invalid_keys')}+{o.get('invalid_values')}"
             return f"{kind}/{pol}/via={case.get('via')}/bad={min(nb, 3)}"
+        if case["op"] == "sequence":
+            return f"sequence/{case['pattern']}"[:60]
         if case["op"] == "schema":
-            return f"schema/{o.get('invalid_values')}/dfs={o.get('data_first_search')}/add={'type' if isinstance(o.get('addition'), (dict, str)) else o.get('addition')}/bad={min(nb, 3)}"
+            nested = "nested/" if any(f.get("kdesc") for f in case["fields"]) else ""
+            return f"schema/{nested}{o.get('invalid_values')}/dfs={o.get('data_first_search')}/add={'type' if isinstance(o.get('addition'), (dict, str)) else o.get('addition')}/bad={min(nb, 3)}"
         return f"func/{o.get('invalid_items')}+{o.get('invalid_values')}/bad={min(nb, 3)}"
 
     def neighbours(self, case, rng):
@@ -1310,6 +1600,10 @@ class C11(Check):
                 tag = next(k for k in case["value"] if k in ("l", "t", "S", "F", "d"))
                 for i in range(len(items)):
                     out.append(dict(case, value={tag: items[:i] + items[i + 1:]}))
+        if case["op"] == "sequence":
+            st = case["steps"]
+            out = [dict(case, steps=st[:i] + st[i + 1:]) for i in range(len(st))] + [dict(case, steps=st[::-1])]
+            return out
         if case["op"] == "schema":
             for i in range(len(case["data"])):
                 out.append(dict(case, data=case["data"][:i] + case["data"][i + 1:]))
